@@ -50,6 +50,9 @@ func (p *Program) externStub(key string) *calleeScope {
 		return nil
 	}
 	pk := p.Pkgs[ModPath]
+	if k := strings.Index(key, "|"); k >= 0 {
+		pk = p.Pkgs[key[:k]]
+	}
 	if pk == nil {
 		return nil
 	}
@@ -87,6 +90,9 @@ func result_[T any](i int) T         { var z T; return z }
 func wild_() int                     { return 0 }
 func wildcap_() int                  { return 0 }
 func rangeidx_() int                 { return 0 }
+func alloc_() int                    { return 0 }
+func ref_(x any) int                 { return 0 }
+func pointee_(x any) int             { return 0 }
 func fresh_[T any](x T) bool          { return true }
 func samearr_[T any](a, b T) bool     { return true }
 func typeis_[T any](x any) bool       { return true }
@@ -175,6 +181,7 @@ func Load(repo, verifDir string, extraOverlay map[string][]byte) (*Program, erro
 		p.Blocks = append(p.Blocks, bl...)
 	}
 	// vocabulary overlay per package dir that has contracts
+	localStubs := 0
 	for dir, bl := range byPkgDir {
 		name, err := packageNameOfDir(dir, overlay)
 		if err != nil {
@@ -186,8 +193,8 @@ func Load(repo, verifDir string, extraOverlay map[string][]byte) (*Program, erro
 		var decls []string
 		uses := map[string]bool{}
 		for _, b := range bl {
-			for _, c := range b.Of("use") {
-				for _, u := range strings.Fields(c.Text) {
+			if b.Kind == "use" {
+				for _, u := range strings.Fields(b.Header) {
 					uses[u] = true
 				}
 			}
@@ -204,13 +211,26 @@ func Load(repo, verifDir string, extraOverlay map[string][]byte) (*Program, erro
 				add(b)
 				declared[b.Name] = true
 			}
+			if b.Kind == "extern" {
+				// package-local assumed contract of an external function
+				b.Extern = true
+				for _, c := range b.Of("import") {
+					imports[strings.TrimSpace(c.Text)] = true
+				}
+				if sg := b.Of("sig"); len(sg) > 0 {
+					localStubs++
+					name := fmt.Sprintf("LStub_%d", localStubs)
+					if p.stubNames == nil {
+						p.stubNames = map[string]string{}
+					}
+					p.stubNames[b.Pkg+"|"+b.Name] = name
+					decls = append(decls, "func "+name+strings.TrimPrefix(strings.TrimSpace(sg[0].Text), "func")+" { panic(0) }\n")
+				}
+			}
 		}
 		for _, b := range commonSpecs {
 			// a common spec is injected into a package when the package says "use <group>"
 			grp := b.Flags["group"]
-			if g := b.Of("params"); len(g) > 0 {
-				grp = strings.TrimSpace(g[0].Text)
-			}
 			if uses[grp] && !declared[b.Name] {
 				add(b)
 				declared[b.Name] = true
@@ -231,7 +251,9 @@ func Load(repo, verifDir string, extraOverlay map[string][]byte) (*Program, erro
 		sb.WriteString("//go:build verif\n\npackage main\n\n")
 		imports := map[string]bool{}
 		var decls []string
-		p.stubNames = map[string]string{}
+		if p.stubNames == nil {
+			p.stubNames = map[string]string{}
+		}
 		n := 0
 		for _, b := range p.Blocks {
 			if !b.Extern {
@@ -305,7 +327,11 @@ func Load(repo, verifDir string, extraOverlay map[string][]byte) (*Program, erro
 		case "func":
 			p.Contracts[b.Pkg+"."+b.Name] = b
 		case "extern":
-			p.Contracts[b.Name] = b
+			if b.Pkg != "" {
+				p.Contracts[b.Pkg+"|"+b.Name] = b
+			} else {
+				p.Contracts[b.Name] = b
+			}
 		case "spec":
 			if b.Pkg != "" {
 				p.Specs[b.Pkg+"."+b.Name] = b
